@@ -224,6 +224,8 @@ class AnnotateMachine(RuleBasedStateMachine):
 
 
 def replay(ctx, case):
+    if "directed" in case:
+        return check_directed(ctx, next(d for d in DIRECTED if d["name"] == case["directed"]), case["style"])
     """Re-run a recorded history outside Hypothesis."""
     hist = case["history"]
     init = hist[0]
@@ -262,8 +264,63 @@ def replay(ctx, case):
             tree.rmtree(root)
 
 
+DIRECTED = [
+    # what the second run asks for is, line by line, a textual beginning of what the header already says: it still has to be added
+    {"name": "prefix-of-existing", "init": None,
+     "steps": [["--copyright", "Jane Doe <jane@example.org>", "--year", "2020", "--license", "MIT-0", "--contributor", "John Smith Jr."],
+               ["--copyright", "Jane Doe", "--year", "2020", "--license", "MIT", "--contributor", "John Smith"]],
+     "want_cop": ["SPDX-FileCopyrightText: 2020 Jane Doe <jane@example.org>", "SPDX-FileCopyrightText: 2020 Jane Doe"], "want_lic": ["MIT-0", "MIT"],
+     "want_con": ["John Smith Jr.", "John Smith"]},
+    # a holder whose name begins with a copyright marker word, stated for two years; merging keeps holder, prefix and span
+    {"name": "merge-holder-beginning-with-a-marker-word", "init": ["SPDX-FileCopyrightText: 2016 Copyright Clearance Center", "SPDX-FileCopyrightText: 2019 Copyright Clearance Center", "",
+                                                                   "SPDX-License-Identifier: ISC"],
+     "steps": [["--merge-copyrights", "--license", "MIT"]], "want_holder_span": ("Copyright Clearance Center", 2016, 2019), "want_lic": ["ISC", "MIT"], "want_cop": [], "want_con": []},
+    # the existing notices use prefixes that the reader accepts and the table of writable prefixes does not list
+    {"name": "merge-unlisted-prefix", "init": ["Copyright (c) 2019 Jane Doe", "SPDX-FileCopyrightText: (c) 2017 Jane Doe", "", "SPDX-License-Identifier: ISC"],
+     "steps": [["--merge-copyrights", "--copyright", "Jane Doe", "--year", "2021"]], "want_holder_span": ("Jane Doe", 2017, 2021), "want_lic": ["ISC"], "want_cop": [], "want_con": []},
+]
+
+
+def check_directed(ctx, d, style):
+    name = "file" + S.EXT_FOR_STYLE[style]
+    root = ctx.fresh_dir()
+    try:
+        body = "first line of code\n"
+        if d["init"]:
+            body = "\n".join(S.wrap_single(style, d["init"]) if S.has_single(style) else S.wrap_block(style, d["init"])) + "\n\n" + body
+        tree.write_tree(root, {name: body})
+        case = {"directed": d["name"], "style": style}
+        for step in d["steps"]:
+            res = cli.run(["annotate", *step, name], root)
+            if res.crash is not None:
+                ctx.fail(case, f"annotate {step} ended in {type(res.crash).__name__}: {res.crash}")
+            if res.code != 0:
+                ctx.fail(case, f"annotate {step} failed on a plain file: {res.brief()}")
+        cop, lic, con, _r = AN.read_back(root, name)
+        ctx.count(("directed", d["name"], style), nontrivial=True, labels=["directed-history", f"directed:{d['name']}"], sample={"history": d["name"], "style": style, "steps": d["steps"]})
+        if cop is None:
+            ctx.fail(case, "lint does not list the file after the history")
+        missing = [x for x in d["want_cop"] if x not in cop] + [x for x in d["want_lic"] if AN.norm_expr(x) not in lic] + [x for x in d["want_con"] if x not in (con or set())]
+        if missing:
+            ctx.fail(case, f"after {d['steps']} the file does not declare {missing}: read back copyrights={sorted(cop)} licences={sorted(map(str, lic))} contributors={sorted(con or [])}")
+        if d.get("want_holder_span"):
+            holder, lo, hi = d["want_holder_span"]
+            mine = [V.parse_notice(x) for x in cop]
+            mine = [m for m in mine if m and m[2] == holder]
+            if not mine or not any(m[1] and m[1][0] <= lo and m[1][1] >= hi for m in mine):
+                ctx.fail(case, f"after merging, holder {holder!r} should keep a notice spanning {lo}-{hi}: read back {sorted(cop)}")
+    finally:
+        tree.rmtree(root)
+
+
 def run(ctx):
     global CTX
+    k = 0
+    for d in DIRECTED:
+        for style in ("python", "c", "html", "lisp", "bat", "tex"):
+            k += 1
+            if k % ctx.nshards == ctx.shard:
+                check_directed(ctx, d, style)
     CTX = ctx
     q = ctx.tier == "quick"
     phases = [Phase.generate] + ([Phase.shrink] if not q else [])
